@@ -18,49 +18,56 @@ def run_seed(prop, verif_seed, run_index, salt=""):
 
 
 class Chooser:
-    __slots__ = ("rng", "replay", "pos", "record", "counts")
+    """Draws are kept in named streams ("main": what happens, "sched": who runs / who dies / where a
+    write is cut, "clock": how far the storage clock moves), so that removing a decision of one kind
+    while minimising does not shift the meaning of the decisions of the other kinds."""
+    __slots__ = ("rng", "replay", "pos", "record")
 
     def __init__(self, seed=None, replay=None):
         if replay is not None:
-            self.replay = [int(v) for v in replay]
+            if isinstance(replay, (list, tuple)):
+                replay = {"main": replay}
+            self.replay = {k: [int(v) for v in vs] for k, vs in replay.items()}
             self.rng = None
         else:
             self.replay = None
             self.rng = random.Random(seed)
-        self.pos = 0
+        self.pos = {}
         self.record = []
 
     # -- core ---------------------------------------------------------------------------
-    def draw(self, label, n):
+    def draw(self, label, n, stream="main"):
         """an int in [0, n); n <= 1 is not a decision and is not recorded"""
         if n <= 1:
             return 0
         if self.replay is not None:
-            if self.pos < len(self.replay):
-                v = self.replay[self.pos]
+            vs = self.replay.get(stream, ())
+            i = self.pos.get(stream, 0)
+            if i < len(vs):
+                v = vs[i]
                 if v >= n or v < 0:
                     v = v % n
             else:
                 v = 0
-            self.pos += 1
+            self.pos[stream] = i + 1
         else:
             v = self.rng.randrange(n)
-        self.record.append((label, n, v))
+        self.record.append((stream, label, n, v))
         return v
 
     # -- conveniences (all built on draw, so that 0 stays "simplest") ---------------------
-    def chance(self, label, num, den):
+    def chance(self, label, num, den, stream="main"):
         """True with probability num/den; the *high* values are the True ones, so that a
         zeroed draw means False (no fault, no pre-emption)"""
-        return self.draw(label, den) >= den - num
+        return self.draw(label, den, stream) >= den - num
 
-    def pick(self, label, seq):
-        return seq[self.draw(label, len(seq))]
+    def pick(self, label, seq, stream="main"):
+        return seq[self.draw(label, len(seq), stream)]
 
-    def weighted(self, label, weights):
+    def weighted(self, label, weights, stream="main"):
         """index i with probability weights[i]/sum; index 0 is the 'simplest'"""
         total = sum(weights)
-        v = self.draw(label, total)
+        v = self.draw(label, total, stream)
         acc = 0
         for i, w in enumerate(weights):
             acc += w
@@ -68,15 +75,18 @@ class Chooser:
                 return i
         return len(weights) - 1
 
-    def int_between(self, label, lo, hi):
+    def int_between(self, label, lo, hi, stream="main"):
         """inclusive"""
-        return lo + self.draw(label, hi - lo + 1)
+        return lo + self.draw(label, hi - lo + 1, stream)
 
     def values(self):
-        return [v for (_, _, v) in self.record]
+        out = {}
+        for (s, _, _, v) in self.record:
+            out.setdefault(s, []).append(v)
+        return out
 
     def labelled(self):
-        return [[l, n, v] for (l, n, v) in self.record]
+        return [[s, l, n, v] for (s, l, n, v) in self.record]
 
 
 def digest(obj):
